@@ -109,7 +109,7 @@ fn weights(mode: &str) -> [usize; 30] {
         "c02" | "c16" => [5, 3, 8, 8, 6, 6, 10, 6, 3, 6, 5, 2, 2, 1, 8, 2, 1, 0, 1, 0, 0, 0, 0, 0, 0, 0, 0, 0, 0, 0],
         "c05" => [2, 1, 2, 2, 1, 1, 2, 1, 1, 1, 0, 0, 0, 0, 0, 0, 8, 8, 8, 8, 0, 0, 0, 0, 0, 0, 0, 0, 0, 0],
         "c07" => [4, 2, 5, 5, 4, 4, 6, 3, 1, 3, 2, 1, 1, 1, 0, 0, 2, 0, 1, 0, 0, 12, 6, 0, 0, 0, 0, 0, 6, 0],
-        "c08" => [4, 2, 5, 5, 4, 4, 6, 3, 1, 3, 2, 1, 1, 0, 0, 0, 1, 0, 1, 0, 14, 0, 0, 0, 0, 0, 0, 0, 0, 0],
+        "c08" => [4, 2, 5, 5, 4, 4, 6, 3, 1, 3, 2, 1, 1, 0, 0, 0, 1, 0, 1, 0, 14, 0, 0, 0, 0, 0, 0, 0, 12, 0],
         "c10" => [3, 2, 4, 4, 3, 3, 5, 5, 4, 3, 2, 1, 1, 0, 1, 1, 1, 1, 0, 0, 12, 6, 4, 5, 5, 4, 4, 4, 4, 0],
         "c11" => [4, 2, 5, 5, 4, 4, 6, 3, 1, 3, 2, 1, 1, 0, 0, 0, 2, 0, 1, 0, 0, 0, 0, 0, 14, 0, 0, 0, 0, 0],
         "c12" => [4, 2, 5, 5, 4, 4, 6, 3, 1, 3, 2, 1, 1, 0, 0, 0, 2, 0, 1, 0, 0, 0, 0, 0, 0, 8, 8, 8, 0, 0],
